@@ -60,6 +60,18 @@ def run(ctx):
                 viol(f"{R.scheme}: from_string({t!r}) is not equal to the printed range (got {back!r} of {type(back).__name__})", inputs=dict(scheme=R.scheme, text=t))
             if t2 != t:
                 viol(f"{R.scheme}: printing again gives {t2!r} instead of {t!r}", inputs=dict(scheme=R.scheme, text=t), observed=t2, expected=t)
+            # the same range built from a tuple in another order (reversed, rotated): it too is read back from its text
+            if len(cons) >= 2:
+                for alt in (tuple(reversed(cons)), tuple(cons[1:] + cons[:1])):
+                    evals += 1
+                    try:
+                        ralt = R(constraints=alt)
+                        ok_alt = (vr.VersionRange.from_string(str(ralt)) == ralt) and str(ralt) == t and ralt.to_dict() == rng.to_dict()
+                    except Exception as e:  # noqa
+                        ok_alt = False
+                    if not ok_alt:
+                        viol(f"{R.scheme}: the range built from the tuple {[str(c) for c in alt]} is not read back from its text {t!r}", inputs=dict(scheme=R.scheme, constraints=[str(c) for c in alt]))
+                        break
             # canonical form: version order, "=" implicit
             body = t.split("/", 1)[1]
             want = "|".join(("" if c.comparator == "=" else c.comparator) + str(c.version) if c.comparator != "*" else "*" for c in sorted(cons))
